@@ -14,13 +14,27 @@ functions and classes, ``__all__``), old and new differing by changed signatures
 overrides, reordered bases, a function moving between modules.  Oracle: both versions are really
 executed; CPython's attribute lookup says what every public path resolves to and real calls
 through the path say which call shapes bind.
+
+Third workload ("loaded"): *how the two versions reach the finder* is part of the case (in-memory
+visit, one loader per version with own extensions, ONE Extensions object for both loads in either
+order, ONE loader with two search roots, the real ``griffe.check()`` entry point and the
+``griffe check`` command on a throw-away git repository), applied to the placed hierarchies and to
+constructors: classes called through a hand-written, inherited or *synthesised* ``__init__``
+(dataclass chains: fields added / removed / reordered / re-formed, defaults, ``field()`` options,
+``KW_ONLY``, ``kw_only=``, ``InitVar``, ``ClassVar``, inherited and undecorated subclasses).  The
+oracle is unchanged: ``Cls(...)`` really binds or raises on the executed old / new code.
 """
 from __future__ import annotations
 
 import inspect
 import itertools
+import os
 import random
+import re
+import shutil
+import subprocess
 import sys
+import tempfile
 import textwrap
 import types
 
@@ -37,7 +51,17 @@ RULE = ("all legal signatures over parameter names {a,b} (quick) / {a,b,c} (thor
         "0..3 bases among the earlier ones (hierarchies CPython cannot linearise are redrawn), each defining method f or not with a "
         "signature over {a,b}, independently in old and new (same / call-breaking partner / other / absent), instance, static or "
         "class methods, optional module-level function g defined in m or imported from vfh per version, optional __all__; "
-        "non-trivial = some call through a public path binds in the old version and not in the new one")
+        "non-trivial = some call through a public path binds in the old version and not in the new one. "
+        "Loaded workload (random sample per seed): 55% dataclass chains of 1..3 classes (first one a dataclass; the others a "
+        "dataclass, an undecorated subclass, a subclass with a hand-written __init__, or a dataclass with one; 0..4 fields over "
+        "{a,b,c,zz} from 14 forms incl. field(default=/default_factory=/kw_only=/init=False), InitVar, ClassVar, optional KW_ONLY "
+        "marker, 7 decorator spellings; base optionally in module vfh; the new version = 0..3 edits among reorder / re-form / add "
+        "/ remove field, toggle marker, change decorator, change class kind, change hand-written signature; classes CPython "
+        "rejects are redrawn; shapes outside what C18 shows faithfully synthesised - re-declared ClassVar/InitVar/init=False "
+        "names, re-declarations without value, init=False decorators, several bases - are not generated) and 45% placed "
+        "hierarchies (20% of them with __init__ as the method); each case gets a load mode among {visit (not for dataclasses), "
+        "fresh, shared-ext, shared-ext-rev, shared-loader, check-api, check-cli (the last two for single-module cases, a fixed "
+        "number per shard)}, a file or package layout and resolve_aliases or not")
 LEVEL_TEXT = ("For every pair of the enumerated signature space the set of calls CPython binds to the old but not the new "
               "definition is computed with CPython's binder; the real find_breaking_changes must report >=1 breakage "
               "whenever that set is non-empty, must name every moved / default-changed / newly-required parameter, must "
@@ -46,7 +70,11 @@ LEVEL_TEXT = ("For every pair of the enumerated signature space the set of calls
               "'Exhaustive' refers to that pair space only: the placements of a function behind public paths (class hierarchies, "
               "inheritance, re-exports) are a random sample; for each of them every public path of the old version is resolved by "
               "really executing both versions and a breakage located at the path, at the owner's member slot or at the resolved "
-              "definition is demanded whenever a call through the path stops binding.")
+              "definition is demanded whenever a call through the path stops binding. The same judgement is made for "
+              "constructors (the class is really called) and under every way of loading the two versions, including one "
+              "Extensions object / one loader serving both and the real check() entry point and CLI (breakages observed "
+              "through a pass-through wrapper around cli.find_breaking_changes, resp. parsed from the one-line output; exit "
+              "code and number of printed lines must agree with them).")
 LEVEL_NOTE = ("trusted: inspect.Signature.bind (cross-checked against real calls for every signature x call shape); call "
               "shapes bounded to <=3 positional and keywords from {a,b,c,zz}; defaults limited to two literal values")
 TECHNIQUE = "runtime monitoring: differential oracle (CPython Signature.bind / real calls) over an exhaustively enumerated pair space"
@@ -55,13 +83,23 @@ REQUIRED_COUNTERS = ["pairs_with_broken_call", "identical_pairs_silent", "moved_
                      "placed_paths_with_broken_call", "placed_inherited_paths_with_broken_call",
                      "placed_shadowing_inherited_paths_with_broken_call", "placed_paths_via_private_definer_with_broken_call",
                      "placed_paths_into_other_module_with_broken_call", "placed_identical_silent", "placed_param_rules_checked",
-                     "placed_reported_param_breakages_checked"]
+                     "placed_reported_param_breakages_checked", "constructor_paths_with_broken_call",
+                     "inherited_constructor_paths_with_broken_call", "dataclass_constructor_paths_with_broken_call",
+                     "inherited_dataclass_constructor_paths_with_broken_call", "dataclass_constructor_broken_with_one_extensions_object",
+                     "load_mode_visit_paths_with_broken_call", "load_mode_fresh_paths_with_broken_call",
+                     "load_mode_shared-ext_paths_with_broken_call", "load_mode_shared-ext-rev_paths_with_broken_call",
+                     "load_mode_shared-loader_paths_with_broken_call", "load_mode_check-api_paths_with_broken_call",
+                     "load_mode_check-cli_paths_with_broken_call", "check_entry_point_runs", "check_cli_runs"]
 EXHAUSTIVE = {"quick": True, "thorough": True}
 ASSUMPTIONS = ["a call is 'broken' iff really calling the old definition succeeds and the new one raises TypeError at binding (inspect.Signature.bind is the cross-check; where it disagrees the real call wins)",
                "call shapes limited to 0..3 positional arguments and keyword subsets of {a,b,c,zz}",
                "placed workload: a public path is a name of the main module that is listed in __all__ (or, without __all__, is "
                "defined there and has no leading underscore) followed by underscore-free attribute names; methods are called "
-               "through an instance; decorators and flavours (instance/static/class method) are the same in both versions"]
+               "through an instance (made without running __init__); a constructor is called through its class; decorators and "
+               "flavours (instance/static/class method) are the same in both versions",
+               "loaded workload: dataclass shapes are restricted to the region C18 shows to be synthesised like CPython on the pinned "
+               "tree (C18's known findings are not reused as explanations here: any discrepancy is a violation); the check-api mode "
+               "observes the breakages through a pass-through wrapper installed on _griffe.cli.find_breaking_changes for the call"]
 
 PO, PK, VP, KO, VK = "po", "pk", "vp", "ko", "vk"
 KW_NAMES = ["a", "b", "c", "zz"]
@@ -213,7 +251,7 @@ def _render_module(which: str, plan: dict, ver: str, sigs) -> str | None:  # noq
         bases = c["bases"][ver]
         head = f"class {c['name']}" + (f"({', '.join(bases)})" if bases else "") + ":\n"
         d = c[ver]
-        text = head + textwrap.indent(render_def(sigs[d], "f", plan["flavor"]) if d is not None else "pass\n", "    ")
+        text = head + textwrap.indent(render_def(sigs[d], plan.get("method", "f"), plan["flavor"]) if d is not None else "pass\n", "    ")
         if c["box"]:
             text = f"class {c['box']}:\n" + textwrap.indent(text, "    ")
         chunks.append(text)
@@ -275,7 +313,9 @@ def gen_placed(rng: random.Random, sigs, breaking: list[list[int]]) -> dict:  # 
             if hidden and rng.random() < 0.3:
                 exports.append(rng.choice(hidden))
         plan = {"classes": classes, "flavor": rng.choice(["inst", "inst", "inst", "static", "cls"]), "g": g,
-                "imports": imports, "exports": exports}
+                "imports": imports, "exports": exports, "method": "f"}
+        if rng.random() < 0.2:  # the method is the constructor: callers reach it by calling the class
+            plan["method"], plan["flavor"] = "__init__", "inst"
         if rng.random() < 0.04:  # an untouched copy: the finder must stay silent
             for c in classes:
                 c["new"], c["bases"]["new"] = c["old"], c["bases"]["old"]
@@ -294,16 +334,20 @@ def gen_placed(rng: random.Random, sigs, breaking: list[list[int]]) -> dict:  # 
     raise AssertionError("no consistent hierarchy in 50 draws")
 
 
+def main_name(files: dict[str, str]) -> str:
+    """The module whose public API is compared (``m``, or ``m_a`` / ``m_b`` when both versions share one loader)."""
+    return next(k for k in files if k.startswith(MAIN))
+
+
 def exec_version(files: dict[str, str]) -> types.ModuleType:
     """Really import one version (helper first); returns the main module."""
-    saved = {k: sys.modules.get(k) for k in (MAIN, HELPER)}
+    saved = {k: sys.modules.get(k) for k in files}
     try:
-        for name in (HELPER, MAIN):
-            if name in files:
-                mod = types.ModuleType(name)
-                sys.modules[name] = mod
-                exec(compile(files[name], f"<{name}>", "exec"), mod.__dict__)  # noqa: S102
-        return sys.modules[MAIN]
+        for name in sorted(files, key=lambda k: not k.startswith(HELPER)):
+            mod = types.ModuleType(name)
+            sys.modules[name] = mod
+            exec(compile(files[name], f"<{name}>", "exec"), mod.__dict__)  # noqa: S102
+        return sys.modules[main_name(files)]
     finally:
         for k, v in saved.items():
             if v is None:
@@ -324,7 +368,7 @@ def public_surface(mod: types.ModuleType) -> dict[str, dict]:
         seen = set()
         for klass in cls.__mro__[:-1]:
             for n in klass.__dict__:
-                if n.startswith("_") or n in seen:
+                if (n.startswith("_") and n != "__init__") or n in seen:
                     continue
                 seen.add(n)
                 raw = inspect.getattr_static(cls, n)
@@ -335,20 +379,34 @@ def public_surface(mod: types.ModuleType) -> dict[str, dict]:
                 func = raw.__func__ if isinstance(raw, (staticmethod, classmethod)) else raw
                 if inspect.isfunction(func):
                     definers = [k for k in cls.__mro__[:-1] if n in k.__dict__]
-                    out[f"{path}.{n}"] = {"func": func, "call": getattr(cls(), n), "owner": cls, "definers": definers,
-                                          "own_path": f"{cls.__module__}.{cls.__qualname__}.{n}"}
+                    # a constructor is called through the class; other methods through an instance made without __init__
+                    call = cls if n == "__init__" else getattr(object.__new__(cls), n)
+                    out[f"{path}.{n}"] = {"func": func, "call": call, "owner": cls, "definers": definers,
+                                          "own_path": norm_path(f"{cls.__module__}.{cls.__qualname__}.{n}")}
 
     for n in names:
         v = getattr(mod, n, None)
         if isinstance(v, type):
             walk(v, n, 0)
         elif inspect.isfunction(v):
-            out[n] = {"func": v, "call": v, "owner": None, "definers": [], "own_path": f"{mod.__name__}.{n}"}
+            out[n] = {"func": v, "call": v, "owner": None, "definers": [], "own_path": norm_path(f"{mod.__name__}.{n}")}
     return out
 
 
+_VERSIONED = re.compile(r"^(m|vfh)_[ab](?=\.|$)")
+
+
+def norm_path(path: str) -> str:
+    """``m_a.K.f`` / ``m_b.K.f`` (both versions in one loader, distinct top-level names) -> ``m.K.f``."""
+    return _VERSIONED.sub(r"\1", path)
+
+
+def _unversioned(files: dict[str, str]) -> dict[str, str]:
+    return {norm_path(k): re.sub(r"\b(m|vfh)_[ab]\b", r"\1", v) for k, v in files.items()}
+
+
 def func_path(func) -> str:  # noqa: ANN001
-    return f"{func.__module__}.{func.__qualname__}"
+    return norm_path(f"{func.__module__}.{func.__qualname__}")
 
 
 def describe_func(func) -> dict:  # noqa: ANN001
@@ -380,13 +438,164 @@ def call_mask(call, rec) -> int:  # noqa: ANN001
     return _MASKS[key]
 
 
-def load_version(files: dict[str, str]):  # noqa: ANN201
+# ------------------------------------------------------------------------------------------
+# How the two versions get loaded is part of the case (key "load"; absent = "visit").  Every mode is a way a real user of
+# the finder obtains the two trees; none of them may change what is reported.
+#   visit              in-memory visit of every module, one collection per version (no loader, no load hooks)
+#   fresh              files on disk; one GriffeLoader per version, each with its own default extensions
+#   shared-ext         one Extensions object (griffe.load_extensions()) serves both loads, old version first
+#   shared-ext-rev     the same, new version loaded first
+#   shared-loader      ONE GriffeLoader, two search roots; the versions have distinct top-level names (m_a / m_b)
+#   check-api          the real griffe.check() entry point in a throw-away git repository (old = tag v1, new = work tree)
+#   check-cli          `python -m griffe check` in a child process on the same kind of repository
+LOAD_MODES = ["visit", "fresh", "shared-ext", "shared-ext-rev", "shared-loader", "check-api", "check-cli"]
+_CLI_LINE = re.compile(r"^(?P<file>[^:]+):(?P<line>\d+): (?P<rel>[\w.<>]+)(?:\((?P<param>\w+)\))?: (?P<kind>[^:]+)")
+
+
+class Seen:
+    """One reported breakage as far as the oracle needs it: kind text, (normalised) object path, parameter named."""
+
+    def __init__(self, kind: str, path: str, param: str | None) -> None:
+        self.kind, self.path, self.param = kind, norm_path(path), param
+
+
+def _write_version(root: str, files: dict[str, str], layout: str) -> None:
+    for name, src in files.items():
+        rel = f"{name}/__init__.py" if layout == "package" else f"{name}.py"
+        os.makedirs(os.path.dirname(os.path.join(root, rel)), exist_ok=True)
+        with open(os.path.join(root, rel), "w") as fh:
+            fh.write(src)
+
+
+def _load_with(loader, files: dict[str, str], resolve: bool):  # noqa: ANN001, ANN202
+    main = None
+    for name in sorted(files, key=lambda k: not k.startswith(HELPER)):  # what the public module imports from comes first
+        main = loader.load(name)
+    if resolve:
+        loader.resolve_aliases()
+    return main
+
+
+def _git_repo(case: dict, root: str) -> tuple[str, dict]:
+    env = dict(os.environ, GIT_CONFIG_GLOBAL="/dev/null", GIT_CONFIG_SYSTEM="/dev/null", GIT_AUTHOR_NAME="t", GIT_AUTHOR_EMAIL="t@t",
+               GIT_COMMITTER_NAME="t", GIT_COMMITTER_EMAIL="t@t", NO_COLOR="1")
+    repo = os.path.join(root, "repo")
+    os.makedirs(repo)
+
+    def git(*a: str) -> None:
+        subprocess.run(["git", *a], cwd=repo, env=env, capture_output=True, text=True, check=True)  # noqa: S603, S607
+
+    git("init", "-q", "-b", "main")
+    _write_version(repo, case["old"], "package")
+    git("add", "-A")
+    git("commit", "-q", "-m", "v1")
+    git("tag", "v1")
+    for name in case["old"]:
+        shutil.rmtree(os.path.join(repo, name))
+    _write_version(repo, case["new"], "package")
+    return repo, env
+
+
+def observe(case: dict, rec) -> list[Seen]:  # noqa: ANN001, C901, PLR0912, PLR0915
+    """Run the real finder on the case the way its load mode says; every breakage reported, explain() exercised."""
     import griffe
 
-    collection = griffe.ModulesCollection()
-    lines = griffe.LinesCollection()
-    mods = {name: visit_source(src, name, collection=collection, lines=lines) for name, src in files.items()}
-    return mods[MAIN]
+    mode = case.get("load", "visit")
+    layout, resolve = case.get("layout", "file"), bool(case.get("resolve"))
+    rec.count(f"load_mode_{mode}_cases")
+
+    def finish(old, new) -> list[Seen]:  # noqa: ANN001
+        out = []
+        for b in griffe.find_breaking_changes(old, new):
+            for style in griffe.ExplanationStyle:
+                b.explain(style)
+            out.append(Seen(b.kind.value, b.obj.path, param_name(b)))
+        return out
+
+    if mode == "visit":
+        mods = {}
+        for ver in ("old", "new"):
+            collection, lines = griffe.ModulesCollection(), griffe.LinesCollection()
+            loaded = {name: visit_source(src, name, collection=collection, lines=lines) for name, src in case[ver].items()}
+            mods[ver] = loaded[main_name(case[ver])]
+        return finish(mods["old"], mods["new"])
+    root = tempfile.mkdtemp(prefix="vfc10-")
+    try:
+        if mode in ("fresh", "shared-ext", "shared-ext-rev"):
+            for ver in ("old", "new"):
+                _write_version(os.path.join(root, ver), case[ver], layout)
+            shared = griffe.load_extensions() if mode != "fresh" else None
+            mods = {}
+            for ver in (("new", "old") if mode == "shared-ext-rev" else ("old", "new")):
+                loader = griffe.GriffeLoader(search_paths=[os.path.join(root, ver)], extensions=shared, allow_inspection=False)
+                mods[ver] = _load_with(loader, case[ver], resolve)
+            return finish(mods["old"], mods["new"])
+        if mode == "shared-loader":
+            for ver in ("old", "new"):
+                _write_version(os.path.join(root, ver), case[ver], layout)
+            loader = griffe.GriffeLoader(search_paths=[os.path.join(root, "old"), os.path.join(root, "new")], allow_inspection=False)
+            old = _load_with(loader, case["old"], False)
+            new = _load_with(loader, case["new"], resolve)
+            return finish(old, new)
+        repo, env = _git_repo(case, root)
+        main = main_name(case["new"])
+        if mode == "check-api":
+            import _griffe.cli as cli
+
+            captured: list = []
+            real = cli.find_breaking_changes
+
+            def spy(old, new):  # noqa: ANN001, ANN202  (observation only: the same generator, its items noted)
+                for b in real(old, new):
+                    captured.append(b)
+                    yield b
+
+            import colorama
+
+            # check() re-initialises colorama around sys.stderr on every call; keeping sys.stderr the one real stream and
+            # pointing file descriptor 2 at a scratch file captures what it prints, call after call
+            cwd, prev_stderr = os.getcwd(), sys.stderr
+            saved_env = {k: os.environ.get(k) for k in env}
+            with tempfile.TemporaryFile() as err:
+                sys.stderr.flush()
+                saved_fd = os.dup(2)
+                os.dup2(err.fileno(), 2)
+                sys.stderr = sys.__stderr__
+                os.chdir(repo)  # check() locates the repository from the package path relative to the working directory
+                cli.find_breaking_changes = spy
+                os.environ.update(env)
+                try:
+                    code = griffe.check(main, against="v1", search_paths=["."], allow_inspection=False, color=False)
+                finally:
+                    cli.find_breaking_changes = real
+                    sys.stderr.flush()
+                    colorama.deinit()
+                    sys.__stderr__.flush()
+                    os.dup2(saved_fd, 2)
+                    os.close(saved_fd)
+                    sys.stderr = prev_stderr
+                    os.chdir(cwd)
+                    for k, v in saved_env.items():
+                        if v is None:
+                            os.environ.pop(k, None)
+                        else:
+                            os.environ[k] = v
+                err.seek(0)
+                printed = [ln for ln in err.read().decode().splitlines() if _CLI_LINE.match(ln)]
+            rec.count("check_entry_point_runs")
+            if code != (1 if captured else 0) or len(printed) != len(captured):
+                raise AssertionError(f"check() returned {code} and printed {len(printed)} line(s) for {len(captured)} breakage(s)")
+            return [Seen(b.kind.value, b.obj.path, param_name(b)) for b in captured]
+        proc = subprocess.run([sys.executable, "-m", "griffe", "check", main, "-s", ".", "-a", "v1"], cwd=repo,  # noqa: S603
+                              env=dict(env, TMPDIR=root), capture_output=True, text=True, timeout=120, check=False)
+        found = [m for m in map(_CLI_LINE.match, proc.stderr.splitlines()) if m]
+        rec.count("check_cli_runs")
+        if proc.returncode not in (0, 1) or proc.returncode != (1 if found else 0):
+            raise AssertionError(f"`griffe check` exited {proc.returncode} with {len(found)} breakage line(s): {proc.stderr[-300:]}")
+        # <file>:<line>: <path below the module>(<parameter>): <kind>: ...   (these cases consist of the one module ``main``)
+        return [Seen(m["kind"].strip(), f"{main}.{m['rel']}", m["param"]) for m in found]
+    finally:
+        shutil.rmtree(root, ignore_errors=True)
 
 
 def _standalone_miss(fo, fn) -> bool:  # noqa: ANN001
@@ -395,6 +604,145 @@ def _standalone_miss(fo, fn) -> bool:  # noqa: ANN001
 
     so, sn = (f"def f{inspect.signature(f)}: ...\n" for f in (fo, fn))
     return not list(griffe.find_breaking_changes(visit_source(so, "m"), visit_source(sn, "m")))
+
+
+# ------------------------------------------------------------------------------------------
+# Constructors whose signature griffe *synthesises*: dataclasses (built-in extension, runs when a package has been loaded).
+# Shapes stay inside what C18 shows to be synthesised faithfully on the pinned tree: single-inheritance chains, every name
+# bound once per class body, no @dataclass(init=False), an inherited field is re-declared only with a value.
+DC_HEADER = "import dataclasses\nfrom dataclasses import KW_ONLY, InitVar, dataclass, field\nfrom typing import ClassVar\n"
+DC_FORMS = ["{n}: int", "{n}: int", "{n}: int = 0", "{n}: int = 1", "{n}: int = field(default=0)", "{n}: int = field()",
+            "{n}: int = field(default_factory=int)", "{n}: int = field(kw_only=True)", "{n}: int = field(default=1, kw_only=True)",
+            "{n}: int = field(default=0, kw_only=False)", "{n}: InitVar[int]", "{n}: InitVar[int] = 0", "{n}: ClassVar[int] = 0",
+            "{n}: int = field(init=False, default=0)"]
+DC_OVERRIDE_FORMS = ["{n}: int = 0", "{n}: int = 1", "{n}: int = field(default=0)", "{n}: int = field(default=1, kw_only=True)"]
+DC_DECORATORS = ["@dataclass", "@dataclass", "@dataclass()", "@dataclasses.dataclass", "@dataclass(kw_only=True)",
+                 "@dataclass(frozen=True)", "@dataclasses.dataclass(order=True, kw_only=False)"]
+
+
+def _dc_render(plan: dict, ver: str, sigs) -> dict[str, str]:  # noqa: ANN001
+    files: dict[str, list[str]] = {}
+    for i, c in enumerate(plan[ver]):
+        base = plan[ver][i - 1]["name"] if i else None
+        lines = []
+        if c["kind"] != "plain" and c["kind"] != "init":
+            lines.append(c["deco"])
+        lines.append(f"class {c['name']}" + (f"({base})" if base else "") + ":")
+        body = []
+        if c["kind"] in ("dc", "dc+init"):
+            for k, (name, form) in enumerate(c["fields"]):
+                if c["marker"] == k:
+                    body.append("_: KW_ONLY")
+                body.append(form.format(n=name))
+            if c["marker"] is not None and c["marker"] >= len(c["fields"]):
+                body.append("_: KW_ONLY")
+        if c["kind"] in ("init", "dc+init"):
+            body.append(render_def(sigs[c["sig"]], "__init__", "inst").rstrip("\n"))
+        lines += ["    " + ln for ln in (body or ["pass"])]
+        files.setdefault(c["where"], []).append("\n".join(lines) + "\n")
+    out = {}
+    for where, chunks in files.items():
+        imports = [c["name"] for c in plan[ver] if c["where"] == HELPER] if where == MAIN else []
+        head = DC_HEADER + (f"from {HELPER} import {', '.join(imports)}\n" if imports else "")
+        out[where] = head + "\n" + "\n".join(chunks)
+    return out
+
+
+def _dc_safe(classes: list[dict]) -> bool:
+    """An inherited name is re-declared only when it is an ordinary constructor parameter, and only as one with a value."""
+    inherited: dict[str, str] = {}
+    for c in classes:
+        if c["kind"] in ("dc", "dc+init"):
+            names = [n for n, _ in c["fields"]]
+            if len(set(names)) != len(names):
+                return False
+            for n, f in c["fields"]:
+                if n in inherited and (f not in DC_OVERRIDE_FORMS or any(x in inherited[n] for x in ("ClassVar", "InitVar", "init=False"))):
+                    return False
+            inherited.update(c["fields"])
+    return True
+
+
+def gen_dataclasses(rng: random.Random, sigs, nsig: int) -> dict:  # noqa: ANN001, C901, PLR0912
+    """A chain of 1..3 classes, at least one dataclass, and an edited copy of it."""
+    import copy
+
+    def fields(k: int, taken: set[str]) -> list:
+        out = []
+        for name in rng.sample(KW_NAMES, k):
+            out.append((name, rng.choice(DC_OVERRIDE_FORMS if name in taken else DC_FORMS)))
+        return out
+
+    for _attempt in range(200):
+        n = rng.choice([1, 1, 2, 2, 2, 3])
+        old: list[dict] = []
+        taken: set[str] = set()
+        for i in range(n):
+            last = i == n - 1
+            kind = "dc" if i == 0 else rng.choice(["dc", "dc", "dc", "plain", "plain", "init", "dc+init"])
+            fl = fields(rng.choice([0, 1, 2, 2, 3, 3, 4]), taken) if kind.startswith("dc") else []
+            taken |= {nm for nm, _ in fl}
+            old.append({"name": ("_" if not last and rng.random() < 0.4 else "") + f"D{i}", "kind": kind, "deco": rng.choice(DC_DECORATORS),
+                        "fields": fl, "marker": rng.randrange(len(fl) + 1) if fl and rng.random() < 0.2 else None,
+                        "sig": rng.randrange(nsig), "where": HELPER if (not last and rng.random() < 0.2) else MAIN})
+        for i in range(1, n):  # the helper module cannot import from the public one
+            if old[i]["where"] == HELPER and old[i - 1]["where"] == MAIN:
+                old[i]["where"] = MAIN
+        new = copy.deepcopy(old)
+        for _edit in range(0 if rng.random() < 0.05 else rng.choice([1, 1, 1, 2, 2, 3])):
+            c = rng.choice(new)
+            edit = rng.choice(["reorder", "reform", "reform", "add", "remove", "marker", "deco", "kind", "sig"])
+            fl = c["fields"]
+            if edit == "reorder" and len(fl) > 1:
+                rng.shuffle(fl)
+            elif edit == "reform" and fl:
+                k = rng.randrange(len(fl))
+                fl[k] = (fl[k][0], rng.choice(DC_FORMS))
+            elif edit == "add" and c["kind"].startswith("dc"):
+                free = [x for x in KW_NAMES if x not in {nm for nm, _ in fl}]
+                if free:
+                    fl.insert(rng.randrange(len(fl) + 1), (rng.choice(free), rng.choice(DC_FORMS)))
+            elif edit == "remove" and fl:
+                fl.pop(rng.randrange(len(fl)))
+            elif edit == "marker" and fl:
+                c["marker"] = None if c["marker"] is not None else rng.randrange(len(fl) + 1)
+            elif edit == "deco":
+                c["deco"] = rng.choice(DC_DECORATORS)
+            elif edit == "kind" and c is not new[0]:
+                c["kind"] = rng.choice(["dc", "plain", "init", "dc+init"])
+            elif edit == "sig":
+                c["sig"] = rng.randrange(nsig)
+            if c["marker"] is not None and c["marker"] > len(fl):
+                c["marker"] = len(fl)
+        if not (_dc_safe(old) and _dc_safe(new)):
+            continue
+        plan = {"old": old, "new": new}
+        case = {ver: _dc_render(plan, ver, sigs) for ver in ("old", "new")}
+        try:  # CPython refuses e.g. a field without default after one with a default: draw again
+            for ver in ("old", "new"):
+                exec_version(case[ver])
+        except (TypeError, ValueError):
+            continue
+        return case
+    raise AssertionError("no dataclass chain CPython accepts in 200 draws")
+
+
+def with_load_mode(rng: random.Random, case: dict, *, hooks_needed: bool, expensive: dict) -> dict:
+    """Decide how the two versions of ``case`` reach the finder (see LOAD_MODES); the decision is part of the literal case."""
+    single = all(len(case[ver]) == 1 for ver in ("old", "new"))
+    modes = ["fresh", "shared-ext", "shared-ext", "shared-ext-rev", "shared-loader"] + ([] if hooks_needed else ["visit"])
+    if single:  # check() loads one package; what it imports from elsewhere would stay unresolved there
+        for mode in ("check-api", "check-cli"):
+            if expensive[mode] > 0 and rng.random() < 0.5:
+                expensive[mode] -= 1
+                modes = [mode]
+    mode = rng.choice(modes)
+    out = dict(case, load=mode, layout="package" if mode.startswith("check") else rng.choice(["file", "package"]),
+               resolve=rng.random() < 0.5)
+    if mode == "shared-loader":  # one loader cannot hold two modules of the same name: the versions get their own
+        for ver, suffix in (("old", "_a"), ("new", "_b")):
+            out[ver] = {name + suffix: re.sub(rf"\b{HELPER}\b", HELPER + suffix, src) for name, src in case[ver].items()}
+    return out
 
 
 PLACED_FINDINGS = ["C10-own-definition-becomes-alias-skipped", "C10-shared-old-target-skipped"]
@@ -419,21 +767,17 @@ def classify_placed(key: str, o: dict, n: dict | None, surf_o: dict, surf_n: dic
 
 
 def run_placed(rec, case: dict) -> None:  # noqa: ANN001, C901, PLR0912, PLR0915
-    import griffe
-
     old_py, new_py = exec_version(case["old"]), exec_version(case["new"])
     surf_o, surf_n = public_surface(old_py), public_surface(new_py)
-    identical = case["old"] == case["new"]
+    mode = case.get("load", "visit")
+    identical = _unversioned(case["old"]) == _unversioned(case["new"])
     try:
-        breakages = list(griffe.find_breaking_changes(load_version(case["old"]), load_version(case["new"])))
-        for b in breakages:
-            for style in griffe.ExplanationStyle:
-                b.explain(style)
-        located = [(b, b.obj.path) for b in breakages]
+        breakages = observe(case, rec)
+        located = [(b, b.path) for b in breakages]
     except Exception as exc:  # noqa: BLE001
-        rec.fail_exc(case, "find_breaking_changes / explain raised on placed functions", exc)
+        rec.fail_exc(case, f"loading ({mode}) / find_breaking_changes / explain raised on placed functions", exc)
         return
-    kinds = [(b.kind.value, p) for b, p in located]
+    kinds = [(b.kind, p) for b, p in located]
     problems: list[tuple] = []
     any_broken = False
     if identical:
@@ -457,12 +801,25 @@ def run_placed(rec, case: dict) -> None:  # noqa: ANN001, C901, PLR0912, PLR0915
             rec.count("placed_inherited_paths")
         if n and func_path(n["func"]) != func_path(o["func"]):
             rec.count("placed_paths_resolution_changed")
-        other_module = o["func"].__module__ != MAIN or bool(n and n["func"].__module__ != MAIN)
+        other_module = not func_path(o["func"]).startswith(MAIN + ".") or bool(n and not func_path(n["func"]).startswith(MAIN + "."))
         if "." in key and key.count(".") > 1:
             rec.count("placed_nested_class_paths")
         if broken:
             any_broken = True
             rec.count("placed_paths_with_broken_call")
+            rec.count(f"load_mode_{mode}_paths_with_broken_call")
+            if key.endswith(".__init__"):
+                import dataclasses
+
+                rec.count("constructor_paths_with_broken_call")
+                if inherited:
+                    rec.count("inherited_constructor_paths_with_broken_call")
+                if dataclasses.is_dataclass(o["owner"]) and o["func"].__code__.co_filename == "<string>":
+                    rec.count("dataclass_constructor_paths_with_broken_call")  # CPython generated this __init__
+                    if inherited:
+                        rec.count("inherited_dataclass_constructor_paths_with_broken_call")
+                    if mode in ("shared-ext", "shared-ext-rev", "check-api", "check-cli"):
+                        rec.count("dataclass_constructor_broken_with_one_extensions_object")
             if inherited:
                 rec.count("placed_inherited_paths_with_broken_call")
             if shadowing:  # the name is defined by several classes of the MRO and not by the class itself
@@ -491,7 +848,7 @@ def run_placed(rec, case: dict) -> None:  # noqa: ANN001, C901, PLR0912, PLR0915
         if not n:
             continue
         do, dn = describe_func(o["func"]), describe_func(n["func"])
-        named = {param_name(b) for b in here} - {None}
+        named = {b.param for b in here} - {None}
         for name, (kind, idx, dfl, req) in do.items():
             if name not in dn:
                 continue
@@ -510,7 +867,7 @@ def run_placed(rec, case: dict) -> None:  # noqa: ANN001, C901, PLR0912, PLR0915
                                      classify_placed(key, o, n, surf_o, surf_n), PLACED_FINDINGS))
     # every reported parameter breakage must name a parameter that changed behind some public path reaching that function
     for b, p in located:
-        name = param_name(b)
+        name = b.param
         if name is None:
             continue
         rec.count("placed_reported_param_breakages_checked")
@@ -522,7 +879,7 @@ def run_placed(rec, case: dict) -> None:  # noqa: ANN001, C901, PLR0912, PLR0915
                 justified = True
                 break
         if not justified:
-            problems.append((f"breakage {b.kind.value} on {p} names parameter {name}, which did not change behind any public "
+            problems.append((f"breakage {b.kind} on {p} names parameter {name}, which did not change behind any public "
                              "path that resolves to this function", kinds, "no such report", None, ()))
     if problems:
         problems.sort(key=lambda p: p[3] is not None)  # an unexplained problem is never hidden behind a known one
@@ -539,9 +896,11 @@ def shards(tier: str, seed: int) -> list[dict]:
     if tier == "thorough":
         out += [{"kind": "pairs", "names": ["a", "b", "c"], "part": p, "parts": 32, "sample": 60} for p in range(32)]
         out += [{"kind": "placed", "names": ["a", "b"], "cases": 12000} for _ in range(16)]
+        out += [{"kind": "loaded", "names": ["a", "b"], "cases": 6000, "check_api": 200, "check_cli": 30} for _ in range(16)]
     else:
         out += [{"kind": "pairs", "names": ["a", "b", "c"], "part": p, "parts": 8, "sample": 3} for p in range(8)]
         out += [{"kind": "placed", "names": ["a", "b"], "cases": 1200} for _ in range(8)]
+        out += [{"kind": "loaded", "names": ["a", "b"], "cases": 450, "check_api": 14, "check_cli": 3} for _ in range(8)]
     return out
 
 
@@ -625,6 +984,17 @@ def run_shard(spec: dict, rec) -> None:  # noqa: ANN001
         breaking = [[j for j in range(len(sigs)) if masks[i] & ~masks[j]] for i in range(len(sigs))]
         for _ in range(spec["cases"]):
             run_placed(rec, gen_placed(rng, sigs, breaking))
+        return
+    if spec["kind"] == "loaded":
+        masks = [accepted_mask(render(s), rec) for s in sigs]
+        breaking = [[j for j in range(len(sigs)) if masks[i] & ~masks[j]] for i in range(len(sigs))]
+        expensive = {"check-api": spec["check_api"], "check-cli": spec["check_cli"]}
+        for _ in range(spec["cases"]):
+            if rng.random() < 0.55:
+                case = with_load_mode(rng, gen_dataclasses(rng, sigs, len(sigs)), hooks_needed=True, expensive=expensive)
+            else:
+                case = with_load_mode(rng, gen_placed(rng, sigs, breaking), hooks_needed=False, expensive=expensive)
+            run_placed(rec, case)
         return
     rec.maximum(f"signatures_over_{''.join(spec['names'])}", len(sigs))
     srcs = [render(s) for s in sigs]
